@@ -198,7 +198,7 @@ class LemmaChain:
                 self.amap[n] = self.t.fresh('g_' + d.args[n][0], d.vals[n])
         return d.substitute(list(formulas), {n: self.amap[n] for n in ufs})
 
-    def select(self, node, closed=False):
+    def select(self, node, closed=False, rounds=2):
         """lemma selection.  closed: facts that only mention transcendental atoms of the statement;
         otherwise facts sharing a transcendental atom with it, transitively (two rounds)."""
         d = self.d
@@ -210,14 +210,16 @@ class LemmaChain:
                 if fa <= want:
                     sel.append(f)
             return sel
-        for _ in range(2):
+        for _ in range(rounds):
+            new = set()
             for f in self.facts:
                 if f in sel:
                     continue
                 fa = {a for a in self.atoms([f]) if d.ops[a] == 'uf'}
                 if fa & want or not fa:
                     sel.append(f)
-                    want |= fa
+                    new |= fa
+            want |= new
         return sel
 
     def prove(self, what, node, hyps=None, timeout=None):
@@ -234,7 +236,11 @@ class LemmaChain:
             if len(wide) <= 40 or set(wide) == set(closed):
                 attempts = [(wide, timeout)]
             else:
-                attempts = [(closed, min(timeout, 10.0)), (wide, timeout)]
+                attempts = [(closed, min(timeout, 10.0))]
+                one = self.select(node, rounds=1)
+                if set(one) not in (set(closed), set(wide)):
+                    attempts.append((one, timeout))
+                attempts.append((wide, timeout))
         else:
             attempts = [(list(hyps), timeout)]
         st = 'unknown'
